@@ -21,6 +21,9 @@ COMPILERS = {"rel": "g++", "asan": "clang++", "tsan": "clang++"}
 # property table. engine "rc": a rapidcheck executable built in the `rel` flavour.
 # quick/thorough: (multiplier on each sub-check's base case count, number of parallel seeds)
 PROPS = {
+    "C10": dict(engine="rc", exe="c10", quick=(1, 6), thorough=(20, 16),
+                assumptions=["trenches bend by at most 25 degrees and probe points sit 2..30 km beside the trench, so the foot of a point generated beside trench segment k lies on segment k-1, k or k+1",
+                             "models are uniform (values recognisable exactly)"]),
     "C07": dict(engine="rc", exe="c07", quick=(1, 6), thorough=(20, 16),
                 assumptions=["slab/fault shortcuts are switched off through the GWB_VERIF hook (infinite bounding box and length cut-off) at parse time; both worlds are built from the same text in one process",
                              "the nearest-triangle search is compared with a scan of the triangles the Surface object itself exposes; the triangulation as such is C11's subject"]),
